@@ -114,9 +114,9 @@ structure CombCfg where
 /-- the outer `on_source` closure (helpers.rs:1087-1185) -/
 def combOnSource (cfg : CombCfg) (st : CombSt) (i : Nat) (source : Text) (content : Option Text) : CombSt × List Ev :=
   if source == cfg.innerName then
-    let content' := match st.innerSource with | some s => some s | none => content
+    let content' := st.innerSource.or content
     let st1 := { st with innerSourceIndex := i
-                         innerSource := (match st.innerSource with | some s => some s | none => content)
+                         innerSource := st.innerSource.or content
                          sourceIndexMapping := lmInsert 0 st.sourceIndexMapping i (-2) }
     -- `source_content.unwrap_or_default()`: fix F5
     let inner := streamSM (content'.getD []) cfg.innerMap ⟨cfg.columns, false⟩
